@@ -137,12 +137,14 @@ m("C02", "proof",
   "queued). C02_end_to_end_unack: BOTH MODELS COMPOSED — the sender model is called and drained k+2 times, every "
   "PDU it emits is handed to the receiver model in order: both end idle, destination file byte-identical to the "
   "source file, no call raised, no fault callback (uses C07, C09 chunk-length independence of the checksum, "
-  "C17). The composed run in acknowledged mode and arbitrary fair pacing are explored (implementation and "
-  "model), not proved.",
+  "C17). C02_end_to_end_ack: the same composition in ACKNOWLEDGED mode including the closing handshake "
+  "(ACK(EOF), Finished, ACK(Finished) routed between the two models): both idle, file byte-identical, one "
+  "successful Transaction-Finished indication on each side, no fault callback, no exception. Arbitrary fair "
+  "pacing (several PDUs queued per call, idle calls in between) is explored (implementation and model), not "
+  "proved.",
   "Lean 4 theorems by induction over tiles + forward simulation of the closing handshake (composition of C07 "
   "and the receiver model) + exploration of pacing",
-  "§6 C02, §11", ["arbitrary fair pacing and the composed two-handler run in acknowledged mode are exploration-level "
-                  "(each handler's half of the acknowledged transfer is proved)"])
+  "§6 C02, §11", ["arbitrary fair pacing is exploration-level; the composed theorems use the one-PDU-per-call schedule"])
 m("C03", "other",
   "acknowledged-mode end-to-end sessions with K in 1..3 faults (drop, duplicate, delay/reorder of any PDU in "
   "either direction) and all expiration limits > K; after the faults the link is quiet and timers keep "
